@@ -33,6 +33,9 @@ package lamport
 //@   ensures [strictly-greater]  err == nil ==> result > old(mc.counter)
 //@   ensures [plus-one]          err == nil ==> mc.counter == old(mc.counter) + 1
 //@   ensures [monotone]          mc.counter >= old(mc.counter)
+//@   ensures [error-means-untouched] err != nil ==> mc.counter == old(mc.counter)
+//@   loop 1
+//@     invariant mc.counter == old(mc.counter)
 
 //@ func (*MemClock).Witness
 //@   props C05
